@@ -22,6 +22,15 @@ NOT_APPLICABLE = {
 }
 
 REGISTRY = {
+    "C18": {
+        "modules": ["c18"],
+        "level_text": "Function and loop contracts on the real algorithm and grid code (extracted to C each run): binary/linear search against the std:: definition for arrays of unbounded length, uniform-grid lookup returns a valid bin for every in-range double, bounded proofs (stated length) for partition and heap sort over symbolic contents.",
+        "level_note": "Trusted: CBMC/dfcc/SAT and cvc5 (FP units); extraction rules; sortedness precondition used through instances; sort/partition units are bounded (length stated) and labelled so.",
+        "design_ref": "DESIGN.md 4 C18",
+        "trusted_base": [],
+        "assumptions": [],
+        "not_decided": ["TwodGridCalculator/TwodSubgridCalculator interpolation accuracy", "Interpolator monotonic containment (nonlinear FP)"],
+    },
     "C13": {
         "modules": ["c13"],
         "level_text": "Function contracts on the real XorwowRngEngine code (extracted to C each run) discharged by CBMC for all states: next()==Marsaglia T, operator() state/weyl/return equations, jump(poly)==g(T)x by lock-step loop invariants, all 64 jump-table rows equal the required power of T on every basis vector (one SAT proof per row), digit decomposition of jump(count,table) by nested loop contracts with a ghost exponent, weyl update of discard, canonical reals in [0,1). Tests sample skips <= 2^16; these obligations cover every state, count and table row.",
